@@ -239,3 +239,21 @@ package reg
 //@   in ~/scheme/reg
 //@   infunc reg\.blobUploadCurBytes$
 //@   requires reads-the-range-header-of-the-response: key == "Range" && recv == caller.resp.Header
+
+// ---- C11: an upload session is talked to under the identity of the registry that opened it ----
+// blobUploadCancel sends a DELETE to the upload URL (DirectURL) it is given, with Host - and hence
+// the credentials, TLS settings and throttle - of the reference it is given. The session URL comes
+// from the TARGET registry (mount answered with a Location, or an upload that failed): the
+// reference passed along must be that target, never the source of a mount.
+//@ callsite (*Reg).blobUploadCancel(ctx, r, putURL)
+//@   prop C11
+//@   name blobUploadCancel/BlobMount
+//@   in ~/scheme/reg
+//@   infunc \)\.BlobMount$
+//@   requires under-the-targets-identity: r == caller.rTgt
+//@ callsite (*Reg).blobUploadCancel(ctx, r, putURL)
+//@   prop C11
+//@   name blobUploadCancel/BlobPut
+//@   in ~/scheme/reg
+//@   infunc \)\.BlobPut$
+//@   requires under-the-targets-identity: r == old(caller.r)
